@@ -103,7 +103,7 @@ func harnessFiles(pkgDir, property string, native bool) (map[string][]byte, stri
 		if !strings.HasSuffix(n, ".go") {
 			continue
 		}
-		if !(strings.HasPrefix(n, "zz_verif_"+property) || strings.HasPrefix(n, "zz_verif_common")) {
+		if !strings.HasPrefix(n, "zz_verif_") {
 			continue
 		}
 		b, err := os.ReadFile(filepath.Join(dir, n))
